@@ -1,4 +1,9 @@
 (* C08 — Every request gets exactly one response, delivered to its own requester. *)
+(* SCOPE. The model serves one request at a time and a response frame, once encoded, reaches the wire or ends the stream. With several
+   threads sharing the connection the thread holding the send lock also writes frames queued by the others (C12); a write that fails
+   WITHOUT ending the stream (a frame of 4 GiB or more, MemoryError in zlib: known finding F52 under C12) then raises in the holder's
+   own _send although the holder's frame went out: a request already answered gets a second, exception response and the request whose
+   frame failed gets none. That history is outside these theorems; it is recorded under F52. *)
 From V Require Import lib.Base model.Proto proofs.ProtoP proofs.ProtoTie gen.Gen_dispatch.
 
 (* 1. with every step of serving a request inside the guarded region (and the encoding of the answer guarded too), for any
